@@ -145,3 +145,29 @@ V("c02-embedding-unscaled", "break", ["C02", "C03"], (FN, "    weight = scale_bw
 V("c02-elementwise-bwd-fwd", "break", ["C02"], (CF, "        input = scale_bwd(input, grad_input_scale)\n", "        input = scale_fwd(input, grad_input_scale)\n"))
 V("c02-keep-genexpr", "keep", ["C02", "C01"], (FN, "    query, key, value = (scale_bwd(t, scale) for t in (query, key, value))", "    query = scale_bwd(query, scale)\n    key = scale_bwd(key, scale)\n    value = scale_bwd(value, scale)"))
 V("c02-keep-dtype-cast", "keep", ["C02"], (SCALE, "            ctx.save_for_backward(torch.tensor(bwd_scale, dtype=X.dtype))", "            saved = torch.tensor(bwd_scale, dtype=X.dtype)\n            ctx.save_for_backward(saved)"))
+
+# ---------------------------------------------------------------- C13 / C14
+FM = "unit_scaling/formats.py"
+V("c13-dead-cast", "break", ["C13", "C14"], (FM, "        q = torch.clip(q, -absmax, absmax)", "        q = torch.clip(x, -absmax, absmax)"), expect="view(int32)")
+V("c13-no-clip", "break", ["C13", "C14"], (FM, "        q = torch.clip(q, -absmax, absmax)\n", ""))
+V("c13-mask", "break", ["C13", "C14"], (FM, "& ~mask).view(torch.float32)", "& mask).view(torch.float32)"))
+V("c13-no-rescale", "break", ["C13", "C14"], (FM, "        q *= downscale\n", ""))
+V("c13-downscale-exp", "break", ["C13", "C14"], (FM, "downscale = 2.0 ** (127 - 2 ** (self.exponent_bits - 1))", "downscale = 2.0 ** (126 - 2 ** (self.exponent_bits - 1))"))
+V("c13-offset-mask", "break", ["C13"], (FM, "            offset = mask // 2\n", "            offset = mask\n"))
+V("c13-no-castback", "break", ["C13", "C14"], (FM, "        return q.to(x.dtype)", "        return q"))
+V("c13-inplace-arg", "break", ["C13", "C14"], (FM, "        q = torch.clip(q, -absmax, absmax)\n        q /= downscale", "        q.clip_(-absmax, absmax)\n        q /= downscale"), expect="R2-no-mutation")
+V("c13-maskbits", "break", ["C13", "C14"], (FM, "mask = torch.tensor(2 ** (23 - self.mantissa_bits) - 1, device=x.device)", "mask = torch.tensor(2 ** (22 - self.mantissa_bits) - 1, device=x.device)"))
+V("c13-max", "break", ["C13"], (FM, "        return cast(float, 2**max_exponent * (2 - 2**-self.mantissa_bits))", "        return cast(float, 2**max_exponent * (2 - 2**-(self.mantissa_bits + 1)))"))
+V("c13-minsub", "break", ["C13"], (FM, "        return self.min_absolute_normal * 2.0**-self.mantissa_bits", "        return self.min_absolute_normal * 2.0**-(self.mantissa_bits + 1)"))
+V("c13-mode-fallthrough", "break", ["C13"], (FM, "        else:  # pragma: no cover\n            raise ValueError(\n                f'Unexpected FPFormat(rounding=\"{self.rounding}\"),'\n                ' expected \"stochastic\" or \"nearest\"'\n            )", "        else:  # pragma: no cover\n            offset = mask // 2"))
+V("c13-keep-tie-up", "keep", ["C13"], (FM, "            offset = mask // 2\n", "            offset = (mask + 1) // 2\n"))
+V("c13-keep-outofplace", "keep", ["C13", "C14"], (FM, "        q /= downscale\n", "        q = q / downscale\n"))
+V("c13-keep-float", "keep", ["C13", "C14"], (FM, "        q = x.to(torch.float32)\n        q = torch.clip(q, -absmax, absmax)", "        q = torch.clamp(x.float(), min=-absmax, max=absmax)"))
+V("c14-one-draw", "break", ["C14"], (FM, "                    0, 2**self.srbits, x.shape, dtype=torch.int32, device=x.device", "                    0, 2**self.srbits, (1,), dtype=torch.int32, device=x.device"), expect="randint.size")
+V("c14-high", "break", ["C14"], (FM, "                    0, 2**self.srbits, x.shape", "                    0, 2**self.srbits - 1, x.shape"), expect="randint.high")
+V("c14-no-shift", "break", ["C14"], (FM, "                )\n                << srbitsbar\n            )", "                )\n            )"))
+V("c14-bias-always", "break", ["C14"], (FM, "            if srbitsbar > 0:\n                offset += 1 << (srbitsbar - 1)", "            if True:\n                offset += 1 << max(srbitsbar - 1, 0)"))
+V("c14-bias-missing", "break", ["C14"], (FM, "            if srbitsbar > 0:\n                offset += 1 << (srbitsbar - 1)\n", ""))
+V("c14-default-srbits", "break", ["C14"], (FM, "            self.srbits = 23 - self.mantissa_bits", "            self.srbits = 22 - self.mantissa_bits"))
+V("c14-srbitsbar", "break", ["C14"], (FM, "            srbitsbar = 23 - self.mantissa_bits - self.srbits", "            srbitsbar = 24 - self.mantissa_bits - self.srbits"))
+V("c14-keep-ge1", "keep", ["C14"], (FM, "            if srbitsbar > 0:", "            if srbitsbar >= 1:"))
